@@ -13,6 +13,15 @@ CLAIMED = {
         note="Trusted: Lean kernel (+propext), hand transcription of label_references.rs (checked by correspondence), harness, renderer of skeleton bodies to Penne source.",
         technique="Lean 4 proof (mutual structural induction) + model/implementation correspondence",
         design="§4 C04"),
+    "C06": dict(
+        text="Lean theorems `Place.placement_iff` and `Place.lint_iff`: for every statement tree the model of "
+             "analyzer/syntax.rs (three mutable flags threaded exactly as in the Rust) raises exactly the E800/E801/E840 codes "
+             "of a context-based placement specification, and the model of linter.rs raises L1800 exactly once per braced "
+             "branch starting with `loop`; exhaustive small-scope + random differential run against the real compiler.",
+        note="Trusted: Lean kernel (+propext), hand transcription of syntax.rs/linter.rs (checked by correspondence), harness, renderer. "
+             "The dangling-else shape (if-else whose then-branch ends in an else-less if) is excluded from generation because its text denotes another tree.",
+        technique="Lean 4 proof (mutual structural induction with flag invariants) + model/implementation correspondence",
+        design="§4 C06"),
 }
 
 NOT_APPLICABLE = {}
